@@ -15,7 +15,7 @@ W = lambda a, b: (r'\b' + a + r'\b', b)
 n('disk-rename-foundsize', 'cache/disk/disk.go', [W('foundSize', 'gotSize')])
 n('disk-rename-flags', 'cache/disk/disk.go', [W('unreserve', 'mustRelease'), W('removeTempfile', 'dropTemp')])
 n('disk-rename-files', 'cache/disk/disk.go', [W('blobFile', 'tmpName'), W('tf', 'tmpf'), W('rcf', 'reopened')])
-n('disk-rename-params', 'cache/disk/disk.go', [W('listElem', 'le'), W('tryProxy', 'askBackend'), W('sizeOnDisk', 'written')])
+n('disk-rename-params', 'cache/disk/disk.go', [W('listElem', 'le'), W('tryProxy', 'askBackend'), W('locked', 'held')])
 n('lru-rename-locals', 'cache/disk/lru.go', [W('sizeDelta', 'delta'), W('uncompressedSizeDelta', 'udelta'), W('ele', 'el'), W('kvCopy', 'old'), W('roundedUpSizeOnDisk', 'rounded'), W('totalDiskSizeNow', 'total')])
 n('fm-rename-locals', 'cache/disk/findmissing.go', [W('chunk', 'batch'), W('remaining', 'rest'), W('numMissing', 'nmiss'), W('req', 'job'), W('waitCh', 'done'), W('missing', 'miss')])
 n('bs-rename-locals', 'server/grpc_bytestream.go', [W('recvResult', 'rres'), W('putResult', 'pres'), W('firstIteration', 'first'), W('resourceNameChan', 'rnc'), W('sendLimitRemaining', 'budget'), W('limitedSend', 'limited')])
@@ -30,6 +30,96 @@ n('main-rename-locals', 'main.go', [W('cacheHandler', 'ch0'), W('statusHandler',
 n('gvar-rename-locals', 'cache/disk/disk.go', [W('pendingValidations', 'todo'), W('acdata', 'raw'), W('oddata', 'treeRaw')])
 
 
+L = lambda a, b: (a, b, 'lit')
+n('put-swap-early-checks', 'cache/disk/disk.go', [L("""	if size < 0 {
+		return badReqErr("Invalid (negative) size: %d", size)
+	}
+
+	if size > c.maxBlobSize {
+		return badReqErr("Blob size %d too large, max blob size is %d", size, c.maxBlobSize)
+	}
+""", """	if size > c.maxBlobSize {
+		return badReqErr("Blob size %d too large, max blob size is %d", size, c.maxBlobSize)
+	}
+
+	if size < 0 {
+		return badReqErr("Invalid (negative) size: %d", size)
+	}
+""")])
+n('put-limit-operands-swapped', 'cache/disk/disk.go', [L('	if size > c.maxBlobSize {', '	if c.maxBlobSize < size {')])
+n('get-maxproxy-operands-swapped', 'cache/disk/disk.go', [L('	if foundSize > c.maxProxyBlobSize {', '	if c.maxProxyBlobSize < foundSize {')])
+n('fm-local-if-inverted', 'cache/disk/findmissing.go', [L("""		if listElem != nil && !isSizeMismatch(blobs[i].SizeBytes, foundSize) {
+			c.accessLogger.Printf("GRPC CAS HEAD %s OK", blobs[i].Hash)
+			blobs[i] = nil
+		} else {
+			missing++
+		}""", """		if listElem == nil || isSizeMismatch(blobs[i].SizeBytes, foundSize) {
+			missing++
+		} else {
+			c.accessLogger.Printf("GRPC CAS HEAD %s OK", blobs[i].Hash)
+			blobs[i] = nil
+		}""")])
+n('header-numoffsets-le1', 'cache/disk/casblob/casblob.go', [L('	if numOffsets < 2 {', '	if numOffsets <= 1 {')])
+n('http-limit-operands-swapped', 'server/http.go', [L('		if contentLength > h.maxCasBlobSizeBytes {', '		if h.maxCasBlobSizeBytes < contentLength {')])
+n('bs-offset-operands-swapped', 'server/grpc_bytestream.go', [L('				if req.WriteOffset != 0 {', '				if 0 != req.WriteOffset {')])
+n('lru-evict-loop-operands', 'cache/disk/lru.go', [L('	for c.currentSize+sizeDelta > c.maxSize {', '	for c.maxSize < sizeDelta+c.currentSize {')])
+n('lru-reserve-zero-after-negative', 'cache/disk/lru.go', [L("""	if size == 0 {
+		return nil
+	}
+
+	if size < 0 {
+		return &cache.Error{
+			Code: http.StatusBadRequest,
+			Text: fmt.Sprintf("Invalid negative blob size: %d", size),
+		}
+	}
+""", """	if size < 0 {
+		return &cache.Error{
+			Code: http.StatusBadRequest,
+			Text: fmt.Sprintf("Invalid negative blob size: %d", size),
+		}
+	}
+
+	if size == 0 {
+		return nil
+	}
+""")])
+n('extra-log-lines', 'cache/disk/disk.go', [L('	key := cache.LookupKey(kind, hash)\n\n	var tf *os.File // Tempfile.', '	key := cache.LookupKey(kind, hash)\n	if false {\n		log.Println("put", key)\n	}\n\n	var tf *os.File // Tempfile.')])
+n('validator-loops-reordered', 'utils/validate/action_result.go', [L("""	err = maybeNilDigest(ar.StdoutDigest)
+	if err != nil {
+		return fmt.Errorf("invalid StdoutDigest: %w", err)
+	}
+	err = maybeNilDigest(ar.StderrDigest)
+	if err != nil {
+		return fmt.Errorf("invalid StderrDigest: %w", err)
+	}
+""", """	err = maybeNilDigest(ar.StderrDigest)
+	if err != nil {
+		return fmt.Errorf("invalid StderrDigest: %w", err)
+	}
+	err = maybeNilDigest(ar.StdoutDigest)
+	if err != nil {
+		return fmt.Errorf("invalid StdoutDigest: %w", err)
+	}
+""")])
+n('gvar-stdout-after-stderr', 'cache/disk/disk.go', [L("""	if result.StdoutDigest != nil {
+		pendingValidations = append(pendingValidations, result.StdoutDigest)
+	}
+
+	if result.StderrDigest != nil {
+		pendingValidations = append(pendingValidations, result.StderrDigest)
+	}
+""", """	if result.StderrDigest != nil {
+		pendingValidations = append(pendingValidations, result.StderrDigest)
+	}
+
+	if result.StdoutDigest != nil {
+		pendingValidations = append(pendingValidations, result.StdoutDigest)
+	}
+""")])
+n('last-chunk-test-respelled', 'cache/disk/casblob/casblob.go', [L('	if chunkNum == int64(len(h.chunkOffsets)-2) {\n		// Last chunk in the file.', '	if chunkNum+2 == int64(len(h.chunkOffsets)) {\n		// Last chunk in the file.')])
+
+
 def run(name, path, subs):
     tmp = tempfile.mkdtemp(prefix='neutral-')
     try:
@@ -37,9 +127,14 @@ def run(name, path, subs):
         subprocess.run(['rsync', '-a', '--exclude', '.git', '/repo/', rdir + '/'], check=True)
         p = os.path.join(rdir, path)
         s = open(p).read()
-        for a, b in subs:
-            s2 = re.sub(a, b, s)
-            s = s2
+        for sub in subs:
+            if len(sub) == 3:
+                a, b = sub[0].replace('\\n', '\n'), sub[1].replace('\\n', '\n')
+                if s.count(a) != 1:
+                    return name, 'OLD-TEXT-NOT-UNIQUE', [str(s.count(a))]
+                s = s.replace(a, b)
+            else:
+                s = re.sub(sub[0], sub[1], s)
         open(p, 'w').write(s)
         env = dict(os.environ, GOFLAGS='-mod=mod', GOPROXY='off')
         r = subprocess.run(['go', 'build', './...'], cwd=rdir, capture_output=True, text=True, env=env)
